@@ -61,6 +61,29 @@ ClassOK(r, dest, op) == LET e == r.res[dest][op] IN Has(e, "v") => e.cls = "UxDa
 GridOK(r, dest, op)  == LET e == r.res[dest][op] IN Has(e, "v") => e.same
 Accepted(r, dest, op) == Has(r.res[dest][op], "v")
 
+\* node dimension first, (n_node, lev): the call may refuse the layout; if it returns numbers they are the
+\* reductions along the node axis, with the destination dimension in the place of the node dimension
+LayoutOK(r, dest) ==
+    Has(r, "alt") =>
+      LET els == Elements(r, dest)
+          res == r.alt.res[dest]
+      IN \A op \in DOMAIN res :
+           LET e == res[op]
+           IN Has(e, "raised") \/
+              ( /\ e.dims = << DestDim(dest), "lev" >>
+                /\ e.shape = << Len(els), Len(r.alt.rows) >>
+                /\ e.cls = "UxDataArray"
+                /\ Len(e.v) = Len(r.alt.rows)
+                /\ \A row \in 1..Len(e.v) :
+                     /\ Len(e.v[row]) = Len(els)
+                     /\ \A k \in 1..Len(e.v[row]) :
+                          Match(op, e.v[row][k], Reduce(op, Gather(els[k], r.alt.rows[row]), r.den)) )
+\* signature of a known shape of failure: the node axis was kept and the gather applied to the LAST axis
+GatherOnLastAxis(r, dest) ==
+    Has(r, "alt") /\ \E op \in DOMAIN r.alt.res[dest] :
+        LET e == r.alt.res[dest][op]
+        IN ~Has(e, "raised") /\ e.shape = << r.n_node, Len(Elements(r, dest)) >>
+
 Failed(r) ==
     LET sane  == EdgeTableSane(r)
         ds    == IF sane THEN Dests ELSE { "face" }
@@ -68,6 +91,7 @@ Failed(r) ==
         every == { << op, d >> : op \in Ops, d \in Dests }
     IN (IF sane THEN {} ELSE { "EdgeTableSane" })
        \cup { "Value_" \o c[1] \o "_" \o c[2] : c \in { x \in pairs : ~ValueOK(r, x[2], x[1]) } }
+       \cup { "Layout_" \o d   : d \in { x \in ds : ~LayoutOK(r, x) } }
        \cup { "Dims_" \o d     : d \in { x \in ds : \E op \in Ops : ~DimsOK(r, x, op) } }
        \cup { "Class_" \o d    : d \in { x \in ds : \E op \in Ops : ~ClassOK(r, x, op) } }
        \cup { "SameGrid_" \o d : d \in { x \in ds : \E op \in Ops : ~GridOK(r, x, op) } }
@@ -84,5 +108,6 @@ Next == /\ i < 0
 Judge == i > 0 =>
            LET r == Recs[i]
                f == Failed(r)
-           IN \A c \in f : PrintT(<<"V", i, c>>)      \* one short line per failed clause
+           IN /\ \A c \in f : PrintT(<<"V", i, c>>)      \* one short line per failed clause
+              /\ \A d \in Dests : ("Layout_" \o d \in f /\ GatherOnLastAxis(r, d)) => PrintT(<<"S", i, d>>)
 =============================================================================
